@@ -120,14 +120,17 @@ class FakeNumpy:
     @staticmethod
     def eye(n, m=None, k=0, dtype=None, **kw):
         m = n if m is None else m
+        from .opalg import shift
         if sz_eq(n, m) and k == 0:
             cell = A.Cell(ctx().new_uid())
             l0 = () if is_one(n) else (A.Leg('I', cell.uid, n, cell=cell, side=0),)
             l1 = () if is_one(n) else (A.Leg('I', cell.uid, n, cell=cell, side=1),)
-            return Arr([n, m], [l0, l1], A.dtype_of(dtype), None, {'const': 'eye', 'orth': 'LO', 'isometry': 'both'}, 'eye')
+            return Arr([n, m], [l0, l1], A.dtype_of(dtype), None, {'const': 'eye', 'orth': 'LO', 'isometry': 'both', 'opalg': shift(0)}, 'eye')
         t = {'const': 'shift' if k != 0 else 'eye-rect', 'k': k}
         if k == 0:
             t['isometry'] = 'rect'
+        if sz_eq(n, m) and isinstance(k, int):
+            t['opalg'] = shift(-k)       # np.eye(n, k=k)[a, b] = 1 iff b - a = k, i.e. |b - k><b|
         return Arr([n, m], None, A.dtype_of(dtype), None, t, 'eye')
 
     @staticmethod
@@ -207,8 +210,11 @@ class FakeNumpy:
         v = as_arr(v)
         if v.ndim == 1:
             n = v.shape[0]
-            return Arr([n, n], [v.legs[0], v.legs[0]], v.dt, None, {'diag_of': v, 'prov': v.tags.get('prov'), 'const': 'projector' if v.tags.get('const') == 'unitvec' else None,
-                                                                  'unit_index': v.tags.get('unit_index')}, 'diag')
+            t = {'diag_of': v, 'prov': v.tags.get('prov'), 'const': 'projector' if v.tags.get('const') == 'unitvec' else None, 'unit_index': v.tags.get('unit_index')}
+            if v.tags.get('const') == 'unitvec' and isinstance(v.tags.get('unit_index'), int):
+                from .opalg import ketbra
+                t['opalg'] = ketbra(v.tags['unit_index'], v.tags['unit_index'])
+            return Arr([n, n], [v.legs[0], v.legs[0]], v.dt, None, t, 'diag')
         if v.ndim == 2:
             n = sz_min(ctx().atoms, v.shape[0], v.shape[1])
             return Arr([n], [v.legs[0]], v.dt, None, {}, 'diag')
